@@ -260,6 +260,10 @@ refresh_chain_contract!(refresh_chain__no_older_gain, master = [3, 2, 1], user =
 refresh_chain_contract!(refresh_chain__up_to_date, master = [2, 1], user = [2, 1], expect = [2, 1]);
 // @obl props=C04,C05 tier=thorough class=bounded fn=core::primitives::refresh_coordinate_keys shape="master [t4], user [t3,t2,t1] (pruned after rekey)"
 refresh_chain_contract!(refresh_chain__pruned_to_front, master = [4], user = [3, 2, 1], expect = [4]);
+// @obl props=C04,C05 tier=quick class=bounded fn=core::primitives::refresh_coordinate_keys shape="master [t2] (pruned after the user's last refresh), user [t2,t1]"
+refresh_chain_contract!(refresh_chain__pruned_behind_shared_front, master = [2], user = [2, 1], expect = [2]);
+// @obl props=C04,C05 tier=thorough class=bounded fn=core::primitives::refresh_coordinate_keys shape="master [t3,t2] , user [t3,t2,t1]"
+refresh_chain_contract!(refresh_chain__tail_pruned_shared_front, master = [3, 2], user = [3, 2, 1], expect = [3, 2]);
 // @obl props=C05 tier=quick class=bounded fn=core::primitives::refresh_coordinate_keys shape="right absent from the master key"
 refresh_chain_contract!(refresh_chain__right_deleted, master = [], user = [2, 1], expect = []);
 
@@ -417,7 +421,7 @@ macro_rules! select_subkeys_contract {
                 let res = ok_or_forget(mpk.select_subkeys(&targets));
                 assert!(res.is_some(), "C09: selection succeeds when every target is published");
                 let (flag, ks) = res.unwrap();
-                assert!(flag == ($h1 && $h2), "C11: the encapsulation is hybridized iff every targeted right is hybridized");
+                assert!(flag == ($h1 && $h2), "C09/C11: the encapsulation is hybridized iff every targeted right is hybridized (a wrong flag makes a valid encapsulation fail or downgrades it)");
                 assert!(ks.len() == 2, "C01: one sub-key per target, no omission, no duplicate");
                 assert!(*ks[0] == mk($h2, p2) && *ks[1] == mk($h1, p1), "C01: the selected sub-keys are those of the targets");
                 let mut bad = HashSet::new();
